@@ -1,7 +1,7 @@
 """C01 - threshold soundness."""
 import random
 
-from ..engines import envelope
+from ..engines import envelope, inplace
 from ..monitors import boundary, probes
 from ..refs import canonjson, models, openpgp, schema
 
@@ -27,7 +27,9 @@ SHARDS = {"quick": 12, "thorough": 16}
 
 def plan(tier, seed):
     n = SHARDS[tier]
-    return [{"kind": "env", "count": N[tier] // n} for _ in range(n)]
+    specs = [{"kind": "env", "count": N[tier] // n} for _ in range(n)]
+    specs.append({"kind": "inplace", "count": 60 if tier == "quick" else 900})
+    return specs
 
 
 def judge(case, rec, lib, probe=None):
@@ -51,18 +53,73 @@ def judge(case, rec, lib, probe=None):
     return model, out
 
 
+def other_payload(signed, rng):
+    """a payload with another JSON value (and other canonical bytes)"""
+    if type(signed) is dict:
+        d = dict(signed)
+        d["added-field"] = rng.randrange(10**6)
+        return d
+    if type(signed) is list:
+        return list(signed) + [rng.randrange(10**6)]
+    return {"wrapped": signed}
+
+
+def run_inplace(spec, rec, lib):
+    rng = random.Random(spec["seed"])
+    for i in range(spec["count"]):
+        for mech, msg, case in inplace.envelope_history(rng, lib, rec, steps=12):
+            if "unsound-accept" in mech:
+                rec.violation(mech, msg, case)
+        rec.case("inplace|%d|%d" % (spec["seed"], i))
+    rec.sample({"inplace_history": "long-lived envelope / key list mutated in place between verify_signable calls"})
+
+
 def run_shard(spec, rec, lib):
+    if spec.get("kind") == "inplace":
+        return run_inplace(spec, rec, lib)
     rng = random.Random(spec["seed"])
     pr = probes.PrimitiveProbe(lib)
     for i in range(spec["count"]):
         case = envelope.gen_case(rng)
         model, out = judge(case, rec, lib)
+        if out.accepted and i % 2 == 0:
+            # related neighbour, run adjacently in the same process: the very same signature
+            # entries (which the library has just verified successfully) on another payload
+            twin = dict(case, signed=other_payload(case["signed"], rng), stratum="twin:" + case["stratum"],
+                        states=sorted(case["states"] + ["transplanted-after-accept"]))
+            judge(twin, rec, lib)
+            rec.count("related_twins_after_accept")
+            # and the same entries under the other signature mode
+            twin2 = dict(case, gpg=not case["gpg"], stratum="twin-mode:" + case["stratum"])
+            judge(twin2, rec, lib)
         # second run with the primitive probe on: inner invariants
         if i % 3 == 0:
-            with pr:
+            lp = probes.LocalsProbe(getattr(lib.authentication.verify_signable, "__wrapped__", lib.authentication.verify_signable),
+                                    "good_sigs_from_trusted_keys")
+            with pr, lp:
                 signable, authorized, threshold, gpg = envelope.materialise(case, lib)
                 out2 = boundary.call(lib, lib.authentication.verify_signable, signable, authorized,
                                      threshold, gpg=gpg)
+            got = None
+            if lp.hits and lp.captures and lp.captures[-1] is not None:
+                try:
+                    got = set(lp.captures[-1])
+                    if not all(isinstance(k, str) for k in got):
+                        got = None
+                except TypeError:
+                    got = None
+                if got is None:
+                    rec.count("probe_counted_signers_unrecognised_shape")
+            if got is not None and model.v != models.GREY:
+                rec.count("probe_counted_signer_sets")
+                allowed = set(model.counted) | set(model.grey_counted)
+                if not got <= allowed:
+                    rec.violation(
+                        "counted-signers-probe/verify_signable/counts-a-signer-the-model-does-not",
+                        "the set of counted signers contains %d key(s) that have no valid authorized signature filed under them"
+                        % len(got - allowed), case)
+            elif not lp.hits:
+                rec.count("probe_counted_signers_unreached")
             if out2.kind != out.kind or out2.cls != out.cls:
                 rec.count("probe_perturbed")
                 pr.events.clear()
@@ -118,4 +175,8 @@ def check_primitive_events(case, signable, events, rec, model, out):
 
 
 def replay(case, rec, lib):
+    if case.get("kind") == "inplace_env":
+        print("history-dependent witness (ops: %s); re-running in-place histories" % "->".join(case["ops"]))
+        run_inplace({"seed": 1, "count": 200}, rec, lib)
+        return
     judge(case, rec, lib)
